@@ -18,6 +18,7 @@ and is NOT decided.  Decided are structural conditions of termination and of the
  RF8-step     every loop that walks the sequence advances through date_add with the increment (or the alternative increment)
               -- no loop re-tests an unchanged value
 """
+import re
 from core import (AnalysisBroken, strip, kids, const_of, call_args, expr_text, walk, CASTS, member_path, switch_cases, guards_of, norm_cond)
 
 
@@ -194,8 +195,13 @@ def check_mirror(P, R, tu):
 
     def atoms(e, op):
         e = strip(e)
+        while e is not None and e.get("k") == "ParenExpr" and e.get("c"):
+            e = strip(e["c"][0])
         if e is not None and e.get("k") == "BinaryOperator" and e.get("op") == op:
             return atoms(e["c"][0], op) + atoms(e["c"][1], op)
+        if e is not None and e.get("k") == "BinaryOperator" and e.get("op") in ("&&", "||"):
+            # a group inside the test (`(day of A && from A up) || (day after && up to B)`): its atoms, kept together
+            return [(e["op"], tuple(sorted(atoms(e, e["op"]))), "")]
         if e is not None and e.get("k") == "BinaryOperator":
             return [(e["op"], expr_text(strip(e["c"][0])), expr_text(strip(e["c"][1])))]
         return [("?", expr_text(e), "")]
@@ -210,12 +216,25 @@ def check_mirror(P, R, tu):
     pn, pc = fn.params[0]["n"], fn.params[1]["n"]
 
     def canon(parts):
-        return sorted((op, a.replace(pn + ".", "now.").replace(pc + "->", "clo->").strip("()"), b.replace(pn + ".", "now.").replace(pc + "->", "clo->").strip("()"))
-                      for op, a, b in parts)
+        def c1(x):
+            return x.replace(pn + ".", "now.").replace(pc + "->", "clo->").strip("()")
+        return sorted((op, tuple(canon(a)), "") if isinstance(a, tuple) else (op, c1(a), c1(b).rstrip("Uu")) for op, a, b in parts)
     MIR = {"<=": ">=", ">=": "<=", "<": ">", ">": "<"}
 
     def mirror(parts):
-        return sorted((MIR.get(op, op), a, b) for op, a, b in parts)
+        """the same test for a run in the other direction: comparisons turned round, the count of midnights passed negated"""
+        out = []
+        for op, a, b in parts:
+            if isinstance(a, tuple):
+                out.append((op, tuple(mirror(a)), ""))
+            elif "d.u" in a and re.fullmatch(r"-?\d+", b) and int(b) != 0:
+                out.append((op, a, str(-int(b))))
+            else:
+                out.append((MIR.get(op, op), a, b))
+        return sorted(out)
+
+    def flat(parts):
+        return [x for op, a, b in parts for x in (flat(a) if isinstance(a, tuple) else [(op, a, b)])]
     # what each test must at least say (the rest -- e.g. a test of the midnights passed -- must be the same up and down)
     need = {False: {("fst", True), ("lst", True)}, True: {("lst", True), ("d.u", False)}}
     for wrap in (False, True):
@@ -227,10 +246,10 @@ def check_mirror(P, R, tu):
                       "disjunction each (%s, %s)" % (what, upk, dnk))
             continue
         cu, cd = canon(upk[1]), canon(dnk[1])
-        missing = [nm for nm, _ in need[wrap] if not any(nm in a or nm in b for _, a, b in cu)]
-        if cu == mirror(cd) and not missing and any(op in (">=", ">") and "fst" in b for op, a, b in cu if not wrap) == (not wrap):
+        missing = [nm for nm, _ in need[wrap] if not any(nm in a or nm in b for _, a, b in flat(cu))]
+        if cu == mirror(cd) and not missing and any(op in (">=", ">") and "fst" in b for op, a, b in flat(cu) if not wrap) == (not wrap):
             R.ob(rule, "time-only tests for %sruns: the falling test is the mirror image of the rising one (%s)" % (
-                what, " ".join("%s%s%s" % (a, op, b) for op, a, b in cu)), True)
+                what, " ".join("%s%s%s" % (a, op, b) for op, a, b in flat(cu))), True)
             R.ob(rule, "time-only tests for %sruns say where the value lies relative to %s" % (what, " and ".join(sorted(nm for nm, _ in need[wrap]))), True)
         else:
             R.finding(rule, fn, "time-only %stests" % what, "the rising test %s and the falling test %s are not mirror images of each other%s"
